@@ -164,13 +164,22 @@ class Ctx:
             key = self.fx.fn(path)["key"]
         k = (key, depth, policy, frozenset(skip_root_sites))
         if k not in self._regions:
-            if policy == "private":
-                base0 = private_only_policy(self.fx)
+            if policy == "private" or policy is None:
+                from .cg import default_inline_policy
+                base0 = private_only_policy(self.fx) if policy == "private" else default_inline_policy(self.fx)
                 root_file = (self.fx.fns[key].get("at") or "").split(":")[0]
                 # conversions written next to the root (`impl TryFrom<&X> for Tree` instead of `fn convert(&X) -> Result<Tree>`) are
                 # its helpers in another spelling
-                pol = lambda fn: base0(fn) or (fn["kind"] == "AssocFn" and (fn.get("impl_trait") or "") in ("std::convert::From", "std::convert::TryFrom")
-                                               and not fn.get("exp") and (fn.get("at") or "").split(":")[0] == root_file)
+                # ... and so are the methods of a local extension trait with a single implementor (`trait Agrees { fn agrees_with(..) }
+                # impl Agrees for LinkMetadata`): an inherent helper method in another spelling
+                local_traits = {t_["path"] for t_ in self.fx.doc.get("traits", [])}
+                n_impls = {}
+                for im in self.fx.impls:
+                    if im.get("trait") in local_traits:
+                        n_impls[im["trait"]] = n_impls.get(im["trait"], 0) + 1
+                single = {t_ for t_, c_ in n_impls.items() if c_ == 1}
+                pol = lambda fn: base0(fn) or (fn["kind"] == "AssocFn" and not fn.get("exp") and (fn.get("at") or "").split(":")[0] == root_file and
+                                               ((fn.get("impl_trait") or "") in ("std::convert::From", "std::convert::TryFrom") or (fn.get("impl_trait") or "") in single))
             elif policy == "all-local":
                 pol = lambda fn: fn["kind"] in ("Fn", "AssocFn")        # every local function, public ones and trait impls included
             elif isinstance(policy, tuple) and policy[0] == "private-except":
